@@ -617,6 +617,19 @@ func (w *World) DisputeStory(o HistOpts) {
 	}
 	rounds := 1 + w.pick(3)
 	voters := []*Actor{w.Team, r, w.anyActor(), w.anyActor(), w.user(), w.user()}
+	// the reporter's own selectors: a selector voting BEFORE its reporter must be taken out of the reporter's weight,
+	// one voting AFTER it is removed from the reporter's recorded weight
+	var ordered []*Actor
+	for _, a := range w.Actors {
+		if s, err := w.App.ReporterKeeper.Selectors.Get(w.Ctx, a.Addr.Bytes()); err == nil && string(s.Reporter) == string(r.Addr.Bytes()) && a.Name != r.Name {
+			ordered = append(ordered, a)
+		}
+	}
+	if len(ordered) > 1 {
+		ordered = []*Actor{ordered[0], r, ordered[1], w.Team}
+	} else if len(ordered) == 1 {
+		ordered = []*Actor{ordered[0], r, w.Team}
+	}
 	for round := 1; round <= rounds && !w.Halted; round++ {
 		id = w.lastDisputeId()
 		nv := w.pick(len(voters) + 1)
@@ -624,8 +637,12 @@ func (w *World) DisputeStory(o HistOpts) {
 			nv = w.pick(2) // keep it below quorum so that another round is possible
 		}
 		var votes []func()
+		useOrdered := len(ordered) > 0 && w.pick(2) == 0
 		for i := 0; i < nv; i++ {
 			v := voters[w.pick(len(voters))]
+			if useOrdered && i < len(ordered) {
+				v = ordered[i]
+			}
 			ch := disputetypes.VoteEnum(w.pick(3))
 			votes = append(votes, func() { w.Vote(v, id, ch) })
 		}
